@@ -410,8 +410,19 @@ func makeMap(kt types.Type) *omap {
 // Returns ok=false if the key contains symbolic parts.
 func normKey(v value) (any, bool) {
 	switch v := v.(type) {
-	case sym, symstr:
+	case sym:
 		return nil, false
+	case symstr:
+		// a view whose bytes are all concrete is an ordinary string key
+		bs := make([]byte, len(v.b))
+		for i, e := range v.b {
+			c, ok := e.(uint8)
+			if !ok {
+				return nil, false
+			}
+			bs[i] = c
+		}
+		return string(bs), true
 	case structure:
 		var sb bytes.Buffer
 		sb.WriteString("S{")
